@@ -158,6 +158,7 @@ Definition point_ok (g : gclass) (m9 : N) (d ro : bool) (a6 : N) : bool :=
   let r := small_impl g m9 d ro a6 in
   (r =? small_spec g m9 d ro a6) && (N.land r a6 =? r) && (r <? 64).
 
-Definition sweep : bool :=
-  forallb (fun g => forallb (fun m9 => forallb (fun d => forallb (fun ro => forallb (fun a6 =>
-    point_ok g m9 d ro a6) masks6) [false; true]) [false; true]) modes9) all_gclasses.
+(* a notation, not a constant: the kernel must never have to unfold it against its own body *)
+Notation sweep :=
+  (forallb (fun g => forallb (fun m9 => forallb (fun d => forallb (fun ro => forallb (fun a6 =>
+    point_ok g m9 d ro a6) masks6) [false; true]) [false; true]) modes9) all_gclasses).
